@@ -15,6 +15,7 @@ func init() { register("C18", checkC18) }
 func checkC18(c *Ctx, r *Report) {
 	r.Explanation = "R4 sibling decision table: DrawGrammar classifies a table cell exactly as the generated driver does (error code → nothing, accept code → accepting state, non-negative → edge to state d labelled with the column's symbol, negative → reduce annotation by rule −d with the column's symbol as lookahead), evaluated on the four cell classes. Node-name agreement: the node a state is created under, the endpoints of edges and the nodes looked up for annotation use the same `state_%d` format on the same state numbers. Enumeration rules: one node per state of the LR(0) collection with one line per item; the text listing prints every state, every item and every goto entry; the debug dump runs on the same LALR1 object before the table is generated. Not decided: the rendered picture (the `dot` subprocess), the text of the listing on any grammar."
 	displayNameRule(c, r, "C18.b")
+	c18EscapeChain(c, r, "C18.b")
 	if f := c.need(r, "C18.a", "LALR", "LALR1", "DrawGrammar"); f != nil {
 		info := f.Pkg.TypesInfo
 		var rows, cells *ast.RangeStmt
